@@ -100,6 +100,34 @@ def eventRun : Nat → List Ct → List Obs
   | _, [] => []
   | c, ct :: cts => (eventStep c ct).2 ++ eventRun (eventStep c ct).1 cts
 
+/-! ## a pairing over several sessions (IP reconnects, BLE pair-verify and pair-resume)
+
+Every pair-verify - full or resumed - installs a new key set with both counters at zero; `epoch` numbers the key
+sets.  What the harness observes is, for every AEAD operation, which key set and which counter were used. -/
+
+structure Sess where
+  epoch : Nat := 0
+  st : St := {}
+  deriving DecidableEq, Repr
+
+inductive SEv
+  | rekey               -- a new session: fresh keys, counters at zero
+  | ev (e : Ev)
+  deriving DecidableEq, Repr
+
+def sstep (s : Sess) : SEv → Sess × List (Nat × Obs)
+  | .rekey => ({ epoch := s.epoch + 1, st := {} }, [])
+  | .ev e => ({ s with st := (step s.st e).1 }, (step s.st e).2.map (fun o => (s.epoch, o)))
+
+def srun : Sess → List SEv → List (Nat × Obs)
+  | _, [] => []
+  | s, e :: es => (sstep s e).2 ++ srun (sstep s e).1 es
+
+def ssealedOf (o : List (Nat × Obs)) : List (Nat × Nat) :=
+  o.filterMap fun | (k, .sealed n) => some (k, n) | _ => none
+def sacceptedOf (o : List (Nat × Obs)) : List (Nat × Nat) :=
+  o.filterMap fun | (k, .accepted j) => some (k, j) | _ => none
+
 /-! ## observations -/
 
 def sealedOf (o : List Obs) : List Nat := o.filterMap fun | .sealed n => some n | _ => none
